@@ -1231,6 +1231,20 @@ def channel_impls(chk, P, prefix):
                 return True, "forwards to Vec", [i["span"]]
             accounting = fields_read(lenb) | (fields_written(pushb))
             cleared = fields_written(clearb)
+            # every scalar (counter/cursor) field that clear() - or a helper it calls - assigns gets the constant 0: "reset" means empty,
+            # not "recomputed from what is being thrown away"
+            for x in expand(clearb):
+                for bb, j, st_ in x.statements(normal_only=True):
+                    if st_["k"] == "assign" and "p" in st_["place"]:
+                        oo = x._origin_place(st_["place"], 0, (), set())
+                        nn = mir.o_field_path(oo)
+                        if nn[0][0] == "param" and nn[0][1] == 1 and nn[1] and st_["rv"]["k"] == "use":
+                            fty = x._op_ty(st_["rv"]["op"]) if hasattr(x, "_op_ty") else None
+                            v = mir.o_const_value(x.origin(st_["rv"]["op"]))
+                            if (fty in ("usize", "u64", "u32", "isize", "i64", "i32") or isinstance(v, int)) and v != 0:
+                                return False, ("%s::clear sets `%s` to %s, not 0 (through %s): after an overflow truncation the emptied "
+                                               "channel still claims the size of what was discarded, so the next batch looks too big for the "
+                                               "current file" % (st, nn[1][0], o_str(x.origin(st_["rv"]["op"])), x.key.split("::")[-1])), [], clearb.span
             missing = sorted(accounting - cleared)
             if missing:
                 return False, ("%s::clear leaves the field(s) %s untouched, which push() updates or len() reads: after an "
